@@ -199,7 +199,29 @@ def op_steps(mod, job):
     return {"ok": True, "extra": out}
 
 
-OPS = {"copy": op_copy, "read_count": op_read_count, "steps": op_steps}
+def op_cf(mod, job):
+    """Reads the first step (a record) of a binary stream and evaluates the named computed fields."""
+    R, _ = classes(mod, job["proto"], "binary")
+    out = []
+    with open(job["in"], "rb") as fin:
+        r = R(fin, True) if False else R(fin)
+        rd = step_methods(mod, job["proto"])[0][0]
+        rec = getattr(r, rd)()
+        for name in job["names"]:
+            try:
+                v = getattr(rec, name)()
+                if isinstance(v, bool):
+                    out.append("b:" + str(v))
+                elif isinstance(v, int) or type(v).__name__.startswith(("int", "uint")):
+                    out.append("i:" + str(int(v)))
+                else:
+                    out.append("f:" + float(v).hex())
+            except BaseException as e:  # noqa
+                out.append("x:%s: %s" % (type(e).__name__, str(e)[:120]))
+    return {"ok": True, "extra": out}
+
+
+OPS = {"copy": op_copy, "read_count": op_read_count, "steps": op_steps, "cf": op_cf}
 
 
 def main():
